@@ -52,6 +52,8 @@ PROBES = [
     ('probe:python-only-whitespace', 'P(1);\x85 '),
     ('probe:non-ascii-string', 'P("é→中", x) :- Q(x, "ß");'),
     ('probe:double-bar', 'P(x) :- x == "a" || "b", (Q(x) | R(x));'),
+    ('probe:empty-subscript', 'P(x[ ]);'),
+    ('probe:denotation-inside-identifier', 'X(u) += My_limit(0, d, c: e);'),
 ]
 
 
@@ -63,6 +65,10 @@ def classify(text):
     return 'diff:number-space-unsigned-suffix'
   if re.search(r'[^|\s\w()\[\]{}"\'`]\|(?!\|)|(?<!\|)\|[^|\s\w()\[\]{}"\'`]', text):
     return 'diff:bar-adjacent-to-separator'
+  if re.search(r'[A-Za-z0-9_]\s*\[\s*\]', text):
+    return 'diff:empty-subscript'
+  if re.search(r'[A-Za-z0-9]_(limit|order_by)\s*\(', text):
+    return 'diff:denotation-inside-identifier'
   return None
 
 
